@@ -20,26 +20,49 @@ let run_script line =
      | None -> report "BAD" "model rejects the environment" line)
   | _ -> report "BAD" "unparsable script line" line
 
-let run () = iter_lines (fun line ->
-  if String.length line > 1 && line.[0] = 'C' then run_script line else
+(* F lines.  [skip_only]: the stream is run for C15 -- only the decision "is the document skipped, and at which test case" is
+   judged (the rest belongs to C13) *)
+let run_gen (skip_only : bool) = iter_lines (fun line ->
+  if String.length line > 1 && line.[0] = 'C' then (if not skip_only then run_script line) else
   try
     match split_on '|' (String.sub line 2 (String.length line - 2)) with
     | [head; out] ->
       (match split_on ' ' head with
-       | [n; stream] ->
-         let n = int_of_string n and stream = bytes_of_hex stream in
-         let m = split_outputs salt stream in
+       | [n; exit_code; stream] ->
+         let n = int_of_string n and exit_code = int_of_string exit_code and stream = bytes_of_hex stream in
          let show outs = if outs = [] then "-" else String.concat "," (List.map (fun (p, c) -> Printf.sprintf "%d:%s" (int_of_z c) (hex_of_bytes p)) outs) in
-         let skip = (match m with Some outs -> List.exists (fun (_, c) -> int_of_z c = 80) outs | None -> false) in
-         let want = (match m with Some outs when List.length outs = n && not skip -> show outs | _ -> "err") in
-         let is_ideal = (match m with Some outs -> ideal salt (n_of_int 0) outs = stream | None -> false) in
-         bump (Printf.sprintf "tests:%d" n); bump (if want = "err" then "model:error" else if is_ideal then "model:ideal-stream" else "model:ok-with-leftover");
+         let v = script_verdict salt (z_of_int 80) (n_of_int n) (z_of_int exit_code) stream in
+         let want = (match v with VSkip i -> Printf.sprintf "skip:%d" (int_of_n i) | VOuts outs -> show outs | VErr -> "err") in
+         (* the shapes the theorems speak about: the ideal stream of all test cases; the ideal stream of the first k and the
+            unfinished output of the one that left the script *)
+         let m = split_outputs salt stream in
+         let is_ideal = (match m with Some outs -> List.length outs = n && ideal salt (n_of_int 0) outs = stream | None -> false) in
+         let is_early = (match m with
+             | Some outs when List.length outs < n ->
+               let pre = ideal salt (n_of_int 0) outs in
+               let lp = List.length pre in
+               List.length stream >= lp && List.filteri (fun i _ -> i < lp) stream = pre
+               && (match fst (finished salt (z_of_int 80) stream) with f -> int_of_n f = List.length outs)
+             | _ -> false) in
+         let is_skip s = String.length s > 5 && String.sub s 0 5 = "skip:" in
+         bump (Printf.sprintf "tests:%d" n); bump (Printf.sprintf "shell-exit:%d" exit_code);
+         bump (match v with VSkip _ -> "model:skip" | VErr -> "model:error" | VOuts _ -> if is_ideal then "model:ideal-stream" else "model:ok-with-leftover");
+         if is_early then bump "shape:script-left-early";
          note_distinct head (n > 1); sample (if String.length line > 300 then String.sub line 0 300 else line);
-         if out = "panic" then report "SPEC:C13" "the executor panicked on the output of the script" line
-         else if out <> want then begin
-           if is_ideal then report "SPEC:C13" ("the outputs / exit codes of the test cases are not the ones the script printed: expected " ^ want) line
-           else report "DIFF:divider" ("model=" ^ want) line
+         if skip_only then begin
+           if (is_skip out || is_skip want) && out <> want then begin
+             if is_ideal || (is_early && exit_code = 80) then report "SPEC:C15" (Printf.sprintf "a Cram document whose script printed these dividers and ended with status %d: expected %s, the executor says %s" exit_code want out) line
+             else report "DIFF:skipcode" ("model=" ^ want) line
+           end
+         end else begin
+           if out = "panic" then report "SPEC:C13" "the executor panicked on the output of the script" line
+           else if out <> want then begin
+             if is_ideal then report "SPEC:C13" ("the outputs / exit codes of the test cases are not the ones the script printed: expected " ^ want) line
+             else report "DIFF:divider" ("model=" ^ want) line
+           end
          end
        | _ -> report "BAD" "divider head" line)
     | _ -> report "BAD" "unparsable case line" line
   with Failure m -> report "BAD" ("divider case: " ^ m) line)
+let run () = run_gen false
+let run_skip () = run_gen true
